@@ -1,6 +1,7 @@
 package bits
 
 import (
+	"strings"
 	"fmt"
 	"go/types"
 	"sort"
@@ -137,6 +138,13 @@ type DecResult struct {
 
 // AnalyzeDecoder evaluates fn (pointer-receiver method taking the input slice, returning error).
 func (e *Engine) AnalyzeDecoder(fn *ssa.Function) (*DecResult, error) {
+	return e.AnalyzeDecoderAssuming(fn, nil)
+}
+
+// AnalyzeDecoderAssuming evaluates the decoder on the inputs whose bits named in fixed ("W:<octet>.<bit>")
+// have the given values: branches on the opposite value are dead, so every alternative (and the joined
+// result) describes those inputs only and carries the assumed bits in its path condition.
+func (e *Engine) AnalyzeDecoderAssuming(fn *ssa.Function, fixed map[string]bool) (*DecResult, error) {
 	if len(fn.Params) != 2 {
 		return nil, fmt.Errorf("%s: unexpected signature", fn.Name())
 	}
@@ -147,6 +155,20 @@ func (e *Engine) AnalyzeDecoder(fn *ssa.Function) (*DecResult, error) {
 	st := newState()
 	obj := e.NewObject("", pt.Elem(), false)
 	in := e.NewBuf("in", false, true)
+	// the assumed input bits are the initial path condition: a branch whose condition contradicts them is dead
+	for name, v := range fixed {
+		var src string
+		var i int
+		if k := strings.LastIndex(name, "."); k > 0 {
+			src = name[:k]
+			fmt.Sscanf(name[k+1:], "%d", &i)
+		}
+		kind := BSrc
+		if !v {
+			kind = BNot
+		}
+		st.conds = addCond(st.conds, Bit{K: kind, Src: src, I: i})
+	}
 	args := []Value{&PtrV{Obj: obj, T: pt.Elem()}, &SliceV{Buf: in, Off: affConst(0)}}
 	rets := e.Call(fn, args, nil, st, 0)
 	res := &DecResult{Fields: map[string]BV{}, Other: map[string]string{}}
